@@ -40,13 +40,30 @@
 //	          until every closer has been entered j times; W blocks until it sees that call j has already returned (the
 //	          violation) or a short deadline; G blocks until the gate of call j is opened.
 //
+// how the closers reach the App (Isolate cases, mode "" only; each in a child process, because the library's global
+// settings are process-wide and cannot be taken back):
+//
+//	ViaGlobal[i]   closer i is handed over through the GLOBAL settings - app.Settings(app.SetComponents(...)), spread
+//	               over SettingsCalls calls of app.Settings - instead of the run option app.SetComponents
+//	OwnRegistry    the run options begin with app.SetRegistry(support.NewRegistry()): the App works on a registry of the
+//	               caller's (the globally supplied closers have to land in it too)
+//	Pack           how the run options are passed: 0 one by one; 1 all of them as ONE app.Options(...) value; 2 the settings
+//	               (log level, configuration loaders) as one app.Options(...) value, the others one by one
+//	Boot           a second, "bootstrap" App with closers of its own is run by one of the run options of this App's Run
+//	               (position BootAt among them), i.e. an App.Run that begins while another App.Run is applying its
+//	               options; both Apps are closed afterwards, each must reach exactly its own closers (sub-result Boot)
+//
 // The oracle is the same in every mode: every closer called exactly once (by every call of Close), Close returns after
 // all of its invocations returned, nothing hangs.
 package main
 
 import (
+	"bytes"
+	"encoding/json"
 	"errors"
 	"fmt"
+	"os"
+	"os/exec"
 	"runtime"
 	"strconv"
 	"strings"
@@ -55,6 +72,7 @@ import (
 	"time"
 
 	"github.com/go-kid/ioc/app"
+	"github.com/go-kid/ioc/container/support"
 	"github.com/go-kid/ioc/syslog"
 	"verifharness/hx"
 )
@@ -76,6 +94,14 @@ type Case struct {
 	// Mode "overlap": number of overlapping Close calls; the order in which their gates are opened (a permutation of 1..Closes)
 	Closes   int   `json:"closes"`
 	RelOrder []int `json:"rel_order"`
+	// Isolate cases (see above)
+	Isolate       bool   `json:"isolate"`
+	ViaGlobal     []bool `json:"via_global"`
+	SettingsCalls int    `json:"settings_calls"`
+	OwnRegistry   bool   `json:"own_registry"`
+	Pack          int    `json:"pack"`
+	Boot          *Case  `json:"boot"`
+	BootAt        int    `json:"boot_at"`
 }
 
 type Event struct {
@@ -91,6 +117,7 @@ type Out struct {
 	Events     []Event `json:"events"`
 	Outcome    string  `json:"outcome"` // ok | hang | stalled | panic | runerr | skipped
 	Detail     string  `json:"detail"`
+	Boot       *Out    `json:"boot,omitempty"` // the bootstrap App of the case
 }
 
 const (
@@ -300,6 +327,147 @@ func (c *core) run() error {
 	return nil
 }
 
+// bcloser: a closer of the bootstrap App (ordinary shape, a name space of its own).
+type bcloser struct{ core }
+
+func (c *bcloser) Naming() string { return fmt.Sprintf("bootcloser%d", c.id) }
+func (c *bcloser) Close() error   { return c.core.run() }
+
+// bootRun is the bootstrap App of a case: built before the main App runs, run BY a run option of the main App.
+type bootRun struct {
+	c      Case
+	rec    *recorder
+	app    *app.App
+	ran    bool
+	runErr error
+	panic_ string
+}
+
+func newBoot(c Case) *bootRun {
+	rec := &recorder{n: c.N, allCalled: make(chan struct{}), closed: make(chan struct{}),
+		release: make(chan struct{}), started: make(chan struct{})}
+	if c.N == 0 {
+		close(rec.allCalled)
+	}
+	return &bootRun{c: c, rec: rec, app: app.NewApp()}
+}
+
+// option: the run option of the main App that runs the bootstrap App
+func (b *bootRun) option() app.SettingOption {
+	return func(*app.App) {
+		comps := make([]any, b.c.N)
+		for i := 0; i < b.c.N; i++ {
+			comps[i] = &bcloser{core{id: i + 1, kind: b.c.Kinds[i], fail: b.c.Fails[i],
+				wdl: time.Duration(b.c.WdlMs) * time.Millisecond, rec: b.rec}}
+		}
+		b.ran = true
+		b.panic_ = hx.Guard(func() {
+			b.runErr = b.app.Run(app.SetConfigLoader(), app.SetComponents(comps...))
+		})
+	}
+}
+
+// finish closes the bootstrap App (after the main App has been closed) and reports like runCase does
+func (b *bootRun) finish() *Out {
+	out := &Out{ID: b.c.ID, Outcome: "ok"}
+	switch {
+	case !b.ran:
+		out.Outcome, out.Detail = "runerr", "the run option that runs the bootstrap App was never applied"
+		return out
+	case b.panic_ != "":
+		out.Outcome, out.Detail = "panic", "Run: "+b.panic_
+		return out
+	case b.runErr != nil:
+		out.Outcome, out.Detail = "runerr", b.runErr.Error()
+		return out
+	}
+	out.Registered = len(b.app.CloserComponents)
+	done := make(chan string, 1)
+	go func() {
+		p := hx.Guard(func() { b.app.Close() })
+		b.rec.add(Event{K: "close"})
+		close(b.rec.closed)
+		done <- p
+	}()
+	select {
+	case p := <-done:
+		if p != "" {
+			out.Outcome, out.Detail = "panic", "Close: "+p
+		}
+	case <-time.After(hangTimeout + time.Duration(b.c.WdlMs)*time.Millisecond):
+		out.Outcome, out.Detail = "hang", "App.Close did not return"
+	}
+	b.rec.settle()
+	if b.rec.stalled.Load() && out.Outcome == "ok" {
+		out.Outcome = "stalled"
+	}
+	b.rec.mu.Lock()
+	out.Events = append([]Event{}, b.rec.events...)
+	b.rec.mu.Unlock()
+	return out
+}
+
+// settle lets every closer that was called finish (they are released by rec.closed); bounded
+func (r *recorder) settle() {
+	deadline := time.Now().Add(2 * time.Second)
+	for time.Now().Before(deadline) {
+		r.mu.Lock()
+		calls := r.calls
+		r.mu.Unlock()
+		if int(atomic.LoadInt32(&r.rets)) >= calls {
+			break
+		}
+		time.Sleep(time.Millisecond)
+	}
+}
+
+// runOptions: the options of the main App's Run and what has to go into the global settings first
+func runOptions(c Case, comps []any, boot *bootRun) (opts []app.SettingOption) {
+	var local, global []any
+	for i, comp := range comps {
+		if i < len(c.ViaGlobal) && c.ViaGlobal[i] {
+			global = append(global, comp)
+		} else {
+			local = append(local, comp)
+		}
+	}
+	// the global settings, spread over SettingsCalls calls of app.Settings (a call without components sets an empty
+	// group of options: it only makes the list of global options longer)
+	for k := 0; k < c.SettingsCalls; k++ {
+		lo, hi := k*len(global)/c.SettingsCalls, (k+1)*len(global)/c.SettingsCalls
+		if hi > lo {
+			app.Settings(app.SetComponents(global[lo:hi]...))
+		} else {
+			app.Settings(app.Options())
+		}
+	}
+	if c.SettingsCalls == 0 {
+		local = append(local, global...)
+	}
+	if c.OwnRegistry {
+		opts = append(opts, app.SetRegistry(support.NewRegistry()))
+	}
+	if c.Pack == 2 {
+		opts = append(opts, app.Options(app.LogLevel(syslog.LvFatal), app.SetConfigLoader()), app.SetComponents(local...))
+	} else {
+		opts = append(opts, app.LogLevel(syslog.LvFatal), app.SetConfigLoader(), app.SetComponents(local...))
+	}
+	if boot != nil {
+		at := c.BootAt
+		if c.OwnRegistry && at < 1 {
+			at = 1 // the registry option stays first
+		}
+		if at > len(opts) {
+			at = len(opts)
+		}
+		opts = append(opts[:at], append([]app.SettingOption{boot.option()}, opts[at:]...)...)
+	}
+	if c.Pack == 1 {
+		opts = []app.SettingOption{app.Options(opts...)}
+	}
+	return
+}
+
 // build makes the components of a case in slot order (= registration order).
 func build(c Case, rec *recorder) (comps []any, bad string) {
 	mk := func(i int) core {
@@ -433,11 +601,21 @@ func runCase(c Case) (out Out) {
 	defer zreset()
 	a := app.NewApp()
 	rec.app = a
+	var boot *bootRun
+	if c.Boot != nil {
+		boot = newBoot(*c.Boot)
+		defer func() {
+			if out.Outcome != "runerr" || boot.ran {
+				out.Boot = boot.finish()
+			}
+		}()
+	}
+	opts := runOptions(c, comps, boot)
 	var runErr error
 	runDone := make(chan string, 1)
 	go func() {
 		runDone <- hx.Guard(func() {
-			runErr = a.Run(app.LogLevel(syslog.LvFatal), app.SetConfigLoader(), app.SetComponents(comps...))
+			runErr = a.Run(opts...)
 		})
 	}()
 	runEnded := func(p string) bool { // true: the case is over
@@ -571,17 +749,7 @@ func runCase(c Case) (out Out) {
 			out.Outcome, out.Detail = "hang", "the runner was never released"
 		}
 	}
-	// let every closer that was called finish (they are released by rec.closed); bounded
-	deadline := time.Now().Add(2 * time.Second)
-	for time.Now().Before(deadline) {
-		rec.mu.Lock()
-		calls := rec.calls
-		rec.mu.Unlock()
-		if int(atomic.LoadInt32(&rec.rets)) >= calls {
-			break
-		}
-		time.Sleep(time.Millisecond)
-	}
+	rec.settle()
 	if rec.stalled.Load() && out.Outcome == "ok" {
 		out.Outcome = "stalled"
 	}
@@ -591,7 +759,55 @@ func runCase(c Case) (out Out) {
 	return out
 }
 
+// runIsolated runs one case in a child process (the library's global settings are process-wide)
+func runIsolated(self string, c Case) (out Out) {
+	out = Out{ID: c.ID}
+	data, _ := json.Marshal(c)
+	cmd := exec.Command(self, "-child")
+	cmd.Stdin = bytes.NewReader(data)
+	var buf bytes.Buffer
+	cmd.Stdout, cmd.Stderr = &buf, &buf
+	if err := cmd.Start(); err != nil {
+		out.Outcome, out.Detail = "panic", err.Error()
+		return
+	}
+	done := make(chan error, 1)
+	go func() { done <- cmd.Wait() }()
+	select {
+	case <-done:
+	case <-time.After(4*hangTimeout + 2*time.Duration(c.WdlMs)*time.Millisecond):
+		cmd.Process.Kill()
+		<-done
+		out.Outcome, out.Detail = "hang", "the child process did not finish"
+		return
+	}
+	s := buf.String()
+	if i := strings.LastIndex(s, "@@JSON "); i >= 0 {
+		line := s[i+7:]
+		if j := strings.IndexByte(line, '\n'); j >= 0 {
+			line = line[:j]
+		}
+		var child Out
+		if json.Unmarshal([]byte(line), &child) == nil {
+			return child
+		}
+	}
+	if len(s) > 1500 {
+		s = s[len(s)-1500:]
+	}
+	out.Outcome, out.Detail = "panic", "child process: "+s
+	return
+}
+
 func main() {
+	if len(os.Args) > 1 && os.Args[1] == "-child" {
+		os.Args = os.Args[:1]
+		var c Case
+		hx.ReadInput(&c)
+		hx.Quiet()
+		hx.WriteOutput(runCase(c))
+		return
+	}
 	var in struct {
 		Cases   []Case `json:"cases"`
 		MaxBad  int    `json:"max_bad"`
@@ -604,7 +820,26 @@ func main() {
 	}
 	outs := make([]Out, 0, len(in.Cases))
 	bad := 0
-	for _, c := range in.Cases {
+	self, _ := os.Executable()
+	// the isolated cases run in child processes, four at a time, while the others run here one after the other
+	iso := map[int]chan Out{}
+	sem := make(chan struct{}, 4)
+	for i, c := range in.Cases {
+		if c.Isolate {
+			ch := make(chan Out, 1)
+			iso[i] = ch
+			go func(c Case) {
+				sem <- struct{}{}
+				defer func() { <-sem }()
+				ch <- runIsolated(self, c)
+			}(c)
+		}
+	}
+	for i, c := range in.Cases {
+		if ch, ok := iso[i]; ok {
+			outs = append(outs, <-ch)
+			continue
+		}
 		if bad >= in.MaxBad {
 			outs = append(outs, Out{ID: c.ID, Outcome: "skipped"})
 			continue
